@@ -52,13 +52,18 @@ def model_jobs(tier):
         for n in ("q1", "q2", "q3", "q4"):
             jobs.append(("Source_%s" % n, os.path.join(SPEC, "cfg", "Source_%s.cfg" % n), 4, 600))
     else:
-        for n in ("q1", "q2", "q3", "q4", "t4", "t5", "t6"):
-            jobs.append(("Source_%s" % n, os.path.join(SPEC, "cfg", "Source_%s.cfg" % n), 5, 2400))
-        for tg in TARGETS:
-            jobs.append(("Source_t1/%s" % tg, _derive("Source_t1.cfg", "Source_t1_%s" % tg, {"Targets": '{"%s"}' % tg}), 5, 2400))
-        for k in KINDS:
-            jobs.append(("Source_t2/%s" % k, _derive("Source_t2.cfg", "Source_t2_%s" % k, {"Kinds": '{"%s"}' % k}), 5, 2400))
-            jobs.append(("Source_t3/%s" % k, _derive("Source_t3.cfg", "Source_t3_%s" % k, {"Kinds": '{"%s"}' % k}), 5, 2400))
+        # the quick configurations q1-q3 are sub-configurations of t2 / t3 / t4; the longest jobs go first
+        for n in ("t5", "t4", "t6", "q4"):
+            jobs.append(("Source_%s" % n, os.path.join(SPEC, "cfg", "Source_%s.cfg" % n), 5, 3000))
+        # 2 mergers + 2 drainers: every kind on a global target, one kind each on the other two
+        for tg, ks in (("global", KINDS), ("concurrent", ["or"]), ("serial", ["replace"])):
+            jobs.append(("Source_t1/%s" % tg, _derive("Source_t1.cfg", "Source_t1_%s" % tg,
+                                                      {"Targets": '{"%s"}' % tg, "Kinds": "{%s}" % ", ".join('"%s"' % k for k in ks)}), 5, 3000))
+        # 4 merges
+        for k in ("add", "replace"):
+            jobs.append(("Source_t2/%s" % k, _derive("Source_t2.cfg", "Source_t2_%s" % k, {"Kinds": '{"%s"}' % k}), 5, 3000))
+        for k in ("or", "replace"):
+            jobs.append(("Source_t3/%s" % k, _derive("Source_t3.cfg", "Source_t3_%s" % k, {"Kinds": '{"%s"}' % k}), 5, 3000))
     return jobs
 
 
@@ -176,6 +181,8 @@ def _run_trace(job):
 
 
 def run(tier, seed):
+    # several TLC instances run side by side (models, trace validations): keep each heap small
+    os.environ.setdefault("VERIF_TLC_HEAP", "3g")
     v = Verdict(PROP, tier, seed)
     v.assumptions = ["TLC bounds: see models (values {1,2} / {0,1,2}, <=3-4 merges, one suspension window, 3-4 threads)",
                      "the target queue is abstract (FIFO of source entries; serial = one popper at a time)",
@@ -186,9 +193,9 @@ def run(tier, seed):
     # ---- job lists
     mjobs = model_jobs(tier)
     if tier == "quick":
-        nruns, execs, ops = 6, 10, 8
+        nruns, execs, ops = 8, 10, 8
     else:
-        nruns, execs, ops = 45, 16, 10
+        nruns, execs, ops = 36, 16, 10
     tjobs = []
     for i in range(nruns):
         tjobs.append((i, seed * 1000 + i, i % 3, [2, 3, 1][(i // 3) % 3], 2 + (i // 9 + i) % 3, execs, ops, drv))
@@ -235,6 +242,9 @@ def run(tier, seed):
         v.traces += 1
         v.states += r.distinct
         v.transitions += r.generated
+        if "MO_DRIFT" in r.out and not any("memory_order" in x for x in v.drift):
+            v.drift.append("memory_order argument differs from the transcription (informational on TSO): " +
+                           re.findall(r'<<"MO_DRIFT".*>>', r.out)[0])
         v.notes["trace_records_validated"] = v.notes.get("trace_records_validated", 0) + (r.tracelen or 0)
         if len(v.samples) < 3:
             lines = open(res["trace"]).read().splitlines()
